@@ -232,7 +232,21 @@ def build(rng, *, family="base", n_axes=1, layout="onaxis", n_glyphs=8, curves="
         if hi - lo < 4:
             continue
         l = [x[1] for x in b]
-        l[i] = rng.randint(lo + 1, hi - 1)
+        if len(axes) >= 2 and rng.random() < 0.5:
+            # an intermediate layer that hangs off a non-default master: that master's position on the other axes.
+            # Prefer an early axis and a master away from the default on a later one (a Glyphs brace layer then lists
+            # only its leading coordinates and inherits the rest from the master it is associated with)
+            off = [(k, m) for k in range(len(axes) - 1) for m in masters if m["layer"] is None
+                   if b[k][0] != b[k][2] and any(list(m["design_loc"].values())[t] != b[t][1] for t in range(k + 1, len(axes)))]
+            if off:
+                i, m = rng.choice(off)
+                cand = [w for w in (0, 2) if b[i][w] != b[i][1]]
+                w = rng.choice(cand)
+                lo, hi = sorted((b[i][1], b[i][w]))
+                if hi - lo < 4:
+                    continue
+                l = list(m["design_loc"].values())
+        l[i] = rng.randint(int(lo) + 1, int(hi) - 1)
         if any(tuple(m["design_loc"].values()) == tuple(l) for m in masters):
             continue
         masters.append({"name": f"S{j}", "ufo": masters[0]["ufo"], "layer": f"{{{l[i]}}}.{j}",
@@ -530,6 +544,18 @@ def production_names(model, rng, share=0.5):
     for g in model["glyphs"]:
         if g["export"] and g["name"] != ".notdef" and rng.random() < share:
             names[g["name"]] = "prod." + g["name"] + str(rng.randint(0, 9))
+    # name clashes: several glyphs asking for the same production name (the later ones must be told apart with a numeric
+    # suffix), next to a glyph - earlier in the order - that already owns such a suffixed name
+    exported = [g["name"] for g in model["glyphs"] if g["export"] and g["name"] != ".notdef"]
+    if len(exported) >= 4 and rng.random() < 0.6:
+        pick = rng.sample(exported, rng.randint(3, min(5, len(exported))))
+        owner, dups = pick[0], pick[1:]
+        for d in dups:
+            names[d] = "clash"
+        names[owner] = rng.choice(["clash.1", "clash.2", "clash.1"])
+        order = model["lib"].get("public.glyphOrder")
+        if order is not None:
+            order[:] = [owner] + [n for n in order if n != owner]
     if names:
         model["lib"]["public.postscriptNames"] = names
     return model
